@@ -7,6 +7,7 @@ Driver for C13. Requests (strings are dotted hex, `-` = empty):
 * `vwp <default> <profiles> <property> <value>`        → `ok <valid> <matching> <names>` | `KeyError <name>`
 * `prop <default> <fontface 0|1> <name> <value> <priority>` → `ok <0|1>` | `KeyError <name>`
 * `sheet <default> <validOnly 0|1> <token>…`           → `ok <sheet.valid> <per rule: 1|0|-> <all declarations valid> <kept>` | `KeyError <name>`
+* `ser <default> <fontface 0|1> <validOnly 0|1> <d/…>…` → one `1` (written) / `0` (dropped) per declaration
 * `flag <sheet N|0|1> <decl N|0|1>`                    → `0|1`
 
 `<default>`/`<profiles>`: `N` (None), `E` (empty list) or comma-separated names.
@@ -120,6 +121,21 @@ def handle (line : String) : String :=
               ++ " " ++ b01 (rulesAllValid accReFast reg ffName rules)
           | .error e => showErr e
         | none => "bad-op"
+      | none => "bad-op"
+  | "ser" :: d :: ff :: vo :: toks => match decList d with
+      | some d =>
+        if (ff != "0" && ff != "1") || (vo != "0" && vo != "1") then "bad-op" else
+        let reg : Registry Re := { reg0 with default := d }
+        -- one reply character per declaration: 1 = written, 0 = dropped (wellformed declarations only)
+        let rec go : List String → String → String
+          | [], acc => if acc.isEmpty then "E" else acc
+          | t :: ts, acc => match decDecl t with
+            | some p => match serProperty accReFast reg ffName (ff == "1") (vo == "1")
+                  { prop := p, text := [120], wellformed := true } with
+              | .ok txt => go ts (acc ++ (if txt.isEmpty then "0" else "1"))
+              | .error e => showErr e
+            | none => "bad-op"
+        go toks ""
       | none => "bad-op"
   | ["flag", s, d] =>
       let dec (w : String) : Option (Option Bool) :=
